@@ -69,6 +69,10 @@ EXPENSIVE = [
     "1e999 - 1e999", "7 // 0", "7 % 0", "7 / 0", "2.0 ** 100000", "(2**4000) * (2**4000) * (2**4000)", "-(2**63) - 1", "1_000_000 * 1_000_000 * 1_000_000", "0.1 + 0.2", "True + True",
 ]
 
+# name-free constant expressions that are ill-typed on the host: folding them must end in firmware text or ValueError
+ILL_TYPED = ["255 >> 1.0", "255 & 0.5", "max(3, '4')", "-'440'", "10 if 'a' < 1 else 20", "1.5 << 2", "1 < 'a'", "min([1], 2)", "2.5 | 1", "'a' * 'b'", "[1] + 1", "None + 1", "len(5)", "abs('x')",
+             "int([1])", "float('x')", "int('x')", "1 // '2'", "round(1, 'a')", "~1.5", "+'a'", "not_defined_name_", "(1, 2) + 3", "{}[0]", "[][0]", "''[1]", "int(None)", "divmod(1, 0)"]
+
 POSITIONS = [
     "led2 = Led({E})", "sv2 = Servo({E})", "b2 = Button({E})", "m2 = DCMotor({E}, 3, 4)", "u2 = Ultrasonic({E}, 3)", "u3 = Ultrasonic(2, 3, sensor={E})", "bz2 = Buzzer({E})",
     "bz3 = Buzzer(8, default_frequency={E})", "lcd2 = LCD(i2c_addr={E})", "lcd3 = LCD(rs={E}, en=1, d4=2, d5=3, d6=4, d7=5)", "lcd4 = LCD(i2c_addr=39, cols={E})", "mon2 = SerialMonitor({E})",
@@ -87,6 +91,8 @@ POSITIONS = [
 ]
 
 STATEMENTS = [
+    "from Reduino_boards.uno import LED_PIN", "from Reduino_boards import uno", "import Reduino_boards.uno", "from Reduinox.y import z", "from Reduino.nosuch.deep import thing", "from Reduino.Actuators.nosuch import Led2",
+    "import Reduino_boards", "from . import sibling", "from .pkg import name", "from __future__ import annotations", "import antigravity", "from this import s", "import Reduino.Actuators.Led as L",
     "del q", "assert q", "raise ValueError(\"x\")", "with open(\"f\") as fh:\n    pass", "async def af():\n    pass", "class A:\n    pass", "fn = lambda v: v", "def g():\n    yield 1",
     "try:\n    q = 1\nfinally:\n    q = 2", "import os", "from os import path", "import os as o, sys", "global q", "match q:\n    case 1:\n        pass", "n: int = 5", "a1 = a2 = 3", "y[0] = 1", "led.pin = 1",
     "*a3, a4 = 1, 2, 3", "print(\"x\")", "pass", "...", "\"docstring\"", "x = [1, 2][0]", "x = {1: 2}", "x = {1, 2}", "x = (1, 2)", "x = 1 if q else 2", "x = not q", "x = -q", "x = q @ q", "x = q is None", "x = q in y",
@@ -127,6 +133,11 @@ def gen(tier: str) -> Iterator[dict]:
     for pi, pos in enumerate(POSITIONS):
         for ei, expr in enumerate(HOSTILE + EXPENSIVE):
             yield {"id": f"X:{pi}:{ei}", "kind": "hostile" if ei < len(HOSTILE) else "expensive", "src": base + pos.replace("{E}", expr) + "\n"}
+        for ei, expr in enumerate(ILL_TYPED):
+            yield {"id": f"T:{pi}:{ei}", "kind": "illtyped", "src": base + pos.replace("{E}", expr) + "\n"}
+            yield {"id": f"T:{pi}:{ei}:list", "kind": "illtyped", "src": base + pos.replace("{E}", "[" + expr + "]") + "\n"}
+        for ei, expr in enumerate(EXPENSIVE):
+            yield {"id": f"XL:{pi}:{ei}", "kind": "expensive", "src": base + pos.replace("{E}", "[" + expr + "]") + "\n"}
     for si, stmt in enumerate(STATEMENTS):
         for ci, scope in enumerate(SCOPES):
             body = scope.replace("{S}", stmt).replace("{I}", _indent(stmt, 1)).replace("{II}", _indent(stmt, 2))
@@ -191,7 +202,7 @@ def classify(case: dict, rec: dict) -> Optional[str]:
     if rec.get("state_changed"):
         return "module-level state of the transpiler changed"
     if rec.get("env_dependent"):
-        return f"the result depends on the host environment (HOME / user / working directory): {rec['env_dependent']}"
+        return f"the result depends on / the run changed the host environment: {rec['env_dependent']}"
     return None
 
 
